@@ -85,6 +85,9 @@ func (v *Verifier) readsOf(blocks []*ssa.BasicBlock, rs map[string]bool, seen ma
 				}
 			case ssa.CallInstruction:
 				if callee := x.Common().StaticCallee(); callee != nil && len(callee.Blocks) > 0 {
+					if c := v.contractFor(callee); (c != nil && c.Trusted) || !v.inRepo(callee) {
+						continue // executed by contract or as an extern: its reads are not modelled state
+					}
 					for c := range v.readSet(callee, seen) {
 						rs[c] = true
 					}
